@@ -70,6 +70,10 @@ def gen_options(ch, excl=()):
     opt("incl_src", True, [False])
     opt("search", True, [False], (1, 4))
     opt("graph", False, [True], (1, 3))
+    if o.get("graph"):
+        # small node limits: graphs are cut, or shown in their table form (whose cells are links too)
+        opt("graph_maxnodes", 1000000000, [1, 2, 3], (1, 2))
+        opt("graph_maxdepth", 10000, [1, 2], (1, 4))
     opt("proc_internals", False, [True], (1, 2))
     opt("display", None, [["public"], ["public", "private"], ["public", "private", "protected"], ["private"], ["none"]], (1, 2))
     opt("sort", "src", SORTS)
@@ -110,8 +114,9 @@ def gen_case(ch: Chooser, excl=()):
         nondefault += 1
     body = "Project text zq0x0w0.\n"
     # where the project file and the output directory live
-    layout = ch.weighted([(3, "plain"), (1, "dotdot"), (1, "redundant")])
+    layout = ch.weighted([(3, "plain"), (1, "dotdot"), (1, "redundant"), (1, "symlink")])
     pfile, outdir = "project.md", "doc"
+    symlinks = []
     if layout == "dotdot":
         pfile, outdir = "docs/project.md", "site"
         options["src_dir"] = "../src"
@@ -120,10 +125,16 @@ def gen_case(ch: Chooser, excl=()):
             options["page_dir"] = "../pages"
     elif layout == "redundant":
         options["output_dir"] = "./build/../doc"
+    elif layout == "symlink":
+        # the output directory is reached through a symbolic link (a `public` link to the web root)
+        files["webroot/.keep"] = ""
+        symlinks.append(["public", "webroot"])
+        options["output_dir"] = "./public/doc"
+        outdir = "webroot/doc"
     classes.append("layout:" + layout)
     files[pfile] = site.project_file(options, body)
     return {"files": files, "options": options, "classes": classes, "nondefault": nondefault, "project_file": pfile,
-            "outdir": outdir}
+            "outdir": outdir, "symlinks": symlinks}
 
 
 def strategy(tier, excl):
@@ -153,6 +164,8 @@ def check(case) -> Result:
     res.sample = {"options": case["options"], "files": {k: v for k, v in list(case["files"].items())[:3]}}
     try:
         with fordapi.Sandbox(case["files"], prefix="vfw-c09-") as root:
+            for link, target in case.get("symlinks", []):
+                (root / link).symlink_to(target, target_is_directory=True)
             data, out = site.build_site(root, case.get("project_file", "project.md"))
             idx = site.SiteIndex(root / case.get("outdir", "doc"))
             problems = idx.check_links()
